@@ -81,7 +81,7 @@ def run_persist_history(cfg, steps, path):
     Returns dict(idresp=[(known_before, handed_before, id, lifetime)], restarts=[(before, after)], crashed).
     """
     flavour, version = cfg["flavour"], cfg["version"]
-    out = {"idresp": [], "restarts": [], "crashed": None, "ticks": 0, "lifetimes": 1, "tick_errors": [], "transient_after_load": []}
+    out = {"idresp": [], "restarts": [], "crashed": None, "ticks": 0, "lifetimes": 1, "tick_errors": [], "transient_after_load": [], "stop_errors": []}
     handed = set()
     pg = PGateway(flavour, version, path)
     pg.start()
@@ -112,7 +112,12 @@ def run_persist_history(cfg, steps, path):
                     out["ticks"] += 1
             elif k in ("restart", "stop"):
                 before = projection(pg.gw.sensors)
-                pg.stop()
+                try:
+                    pg.stop()
+                except Exception as exc:     # judged by the caller: a stop() that raises has not saved
+                    out["stop_errors"].append((idx, exc))
+                    for t in FAKE_THREADING.live():
+                        t.cancel()
                 out["tick_errors"] += [repr(e) for e in pg.tick_errors]
                 pg.close()
                 pg = PGateway(flavour, version, path)
